@@ -23,7 +23,8 @@ import (
 )
 
 type c33Case struct {
-	Hist []int `json:"hist"`
+	Part string `json:"part,omitempty"` // "" = main search, "table" = machine-table sub-exploration
+	Hist []int  `json:"hist"`
 }
 
 const (
@@ -149,6 +150,29 @@ func c33Events(r *vlib.Run) []c33Event {
 	add(InvokeOp, "invoke(0,block-readonly)", -1, 0, c33ROPage)
 	for _, n := range []uint64{0, 1, 9} {
 		add(ExpungeOp, fmt.Sprintf("expunge(%d)", n), -1, n)
+	}
+	return ev
+}
+
+// c33TableEvents: the cheap alphabet of the machine-table sub-exploration. The first four are the
+// history alphabet; the rest are probes applied as the last event only.
+const c33TableAlphabet = 4
+
+func c33TableEvents() []c33Event {
+	var ev []c33Event
+	add := func(op OperationType, name string, regs ...uint64) {
+		e := c33Event{Op: op, Name: name, Blk: -1}
+		copy(e.R[:], regs)
+		ev = append(ev, e)
+	}
+	add(MachineOp, "machine(A,pc=0)", c33Data+c33OffBlobA, uint64(len(c33Blobs[0])), 0)
+	add(ExpungeOp, "expunge(0)", 0)
+	add(ExpungeOp, "expunge(1)", 1)
+	add(ExpungeOp, "expunge(2)", 2)
+	// probes
+	add(ExpungeOp, "expunge(3)", 3)
+	for n := uint64(0); n <= 3; n++ {
+		add(PeekOp, fmt.Sprintf("peek(%d,z=0)", n), n, c33Scratch+16, c33InnerPage*ZP, 0)
 	}
 	return ev
 }
@@ -656,6 +680,10 @@ func c33Key(w *c33World) string {
 // c33Run replays hist on a fresh world; the last event is checked against the model.
 // Returns the state key ("" if the history cannot be continued: Go panic).
 func c33Run(r *vlib.Run, evs []c33Event, hist []int, check bool) string {
+	return c33RunPart(r, "", evs, hist, check)
+}
+
+func c33RunPart(r *vlib.Run, part string, evs []c33Event, hist []int, check bool) string {
 	w := c33Build()
 	for i, ei := range hist {
 		e := evs[ei]
@@ -668,7 +696,7 @@ func c33Run(r *vlib.Run, evs []c33Event, hist []int, check bool) string {
 			}
 			continue
 		}
-		c := c33Case{Hist: append([]int(nil), hist...)}
+		c := c33Case{Part: part, Hist: append([]int(nil), hist...)}
 		cur, _ := json.Marshal(map[string]interface{}{"site": "PVM." + hostCallName[e.Op], "case": c})
 		r.Cur(string(cur))
 		model := c33Abstract(w)
@@ -688,7 +716,16 @@ func c33Run(r *vlib.Run, evs []c33Event, hist []int, check bool) string {
 			r.Class("op=" + opn + " not-judged")
 			continue
 		}
-		r.Class(fmt.Sprintf("op=%s model=%s", opn, want.Branch))
+		if part == "table" {
+			live := len(model.M)
+			if e.Op == ExpungeOp && want.Branch == "ok" {
+				live++ // the model already removed it
+			}
+			r.Class(fmt.Sprintf("table op=%s model=%s live-after=%d", opn, want.Branch, len(model.M)))
+			_ = live
+		} else {
+			r.Class(fmt.Sprintf("op=%s model=%s", opn, want.Branch))
+		}
 		bad := func(kind, key, detail string) {
 			r.Violation("PVM."+opn, kind, key, desc+": "+detail, c)
 		}
@@ -784,7 +821,11 @@ func TestVerif_C33(t *testing.T) {
 
 	var rc c33Case
 	if r.IsReplay(&rc) {
-		c33Run(r, evs, rc.Hist, true)
+		if rc.Part == "table" {
+			c33RunPart(r, "table", c33TableEvents(), rc.Hist, true)
+		} else {
+			c33Run(r, evs, rc.Hist, true)
+		}
 		return
 	}
 	// self-checks: the model's view of the test programs
@@ -801,6 +842,37 @@ func TestVerif_C33(t *testing.T) {
 	}
 	depth := vlib.Pick(r, 3, 4)
 	r.Extra("alphabet", len(evs))
+	// machine-table sub-exploration: every history of length 1..7 (quick) / 1..8 (thorough) over
+	// {machine(valid), expunge(0), expunge(1), expunge(2)} checked at its last event, and after every
+	// history of length < max the probes expunge(3), peek(0..3, z=0): the id returned by machine must
+	// be the smallest free one and every id must answer WHO / OK as the model's table says.
+	{
+		tev := c33TableEvents()
+		tdepth := vlib.Pick(r, 7, 8)
+		tidx := uint64(1 << 40)
+		for n := 1; n <= tdepth; n++ {
+			vlib.Sequences(c33TableAlphabet, n, func(sq []int) {
+				tidx++
+				if !r.Mine(tidx) {
+					return
+				}
+				h := append([]int(nil), sq...)
+				r.Space(1)
+				if c33RunPart(r, "table", tev, h, true) == "" {
+					return
+				}
+				r.Trace()
+				if n == tdepth {
+					return
+				}
+				for pi := c33TableAlphabet; pi < len(tev); pi++ {
+					r.Space(1)
+					c33RunPart(r, "table", tev, append(append([]int(nil), h...), pi), true)
+				}
+			})
+		}
+	}
+
 	// start worlds = histories of real events applied first: the empty table, and one machine with a
 	// writable page (so that the poke -> peek / invoke data paths are inside the quick depth)
 	find := func(name string) int {
